@@ -159,7 +159,7 @@ def compile_fn(src, ns, fname):
     return ns[fname]
 
 
-def make_args(params, *, bad_at=None, style_seed=0, n_va=2, n_vk=2, omit_defaults=False, force_shadow=False):
+def make_args(params, *, bad_at=None, style_seed=0, n_va=2, n_vk=2, omit_defaults=False, force_shadow=False, bad_none=False):
     """Build (args, kwargs, expected_received) for a binding call.  bad_at = index of the parameter
     that receives an ill-typed value (None = all well typed).  Positional-or-keyword parameters are passed
     positionally or by keyword depending on style_seed."""
@@ -175,7 +175,7 @@ def make_args(params, *, bad_at=None, style_seed=0, n_va=2, n_vk=2, omit_default
                     kw_started = True
                 recv[p["name"]] = ("default", i)
                 continue
-            v = bad_value(p["ann"], i) if bad else good_value(p["ann"], i)
+            v = (None if bad_none else bad_value(p["ann"], i)) if bad else good_value(p["ann"], i)  # (an explicit None is ill typed for int/str/array)
             recv[p["name"]] = v
             if k == "po":
                 if kw_started:
